@@ -81,9 +81,18 @@ enum Opened {
     Bad(String, String, String),
 }
 
+static SEAM: std::sync::atomic::AtomicU64 = std::sync::atomic::AtomicU64::new(0);
+
 fn open_and_dump(img: &[u8], strict: bool) -> Opened {
     let disk = SimDisk::new(img.to_vec());
-    disk.0.borrow_mut().budget = 2_000_000 + 400 * (img.len() as u64 / 64);
+    let r = open_and_dump_on(disk.clone(), img.len(), strict);
+    SEAM.fetch_add(disk.k(), std::sync::atomic::Ordering::Relaxed);
+    r
+}
+
+fn open_and_dump_on(disk: SimDisk, len: usize, strict: bool) -> Opened {
+    let img_len = len;
+    disk.0.borrow_mut().budget = 2_000_000 + 400 * (img_len as u64 / 64);
     match Lib::open(disk, strict, None) {
         Ok(mut lib) => {
             lib.budget_base = 2_000_000;
@@ -118,7 +127,14 @@ fn overlap(a: &Deviation, b: &Deviation) -> bool {
     a.edits.iter().any(|(o1, b1)| b.edits.iter().any(|(o2, b2)| *o1 < *o2 + b2.len() && *o2 < *o1 + b1.len()))
 }
 
-pub fn run(case: &Case, _known: &BTreeSet<String>) -> Outcome {
+pub fn run(case: &Case, known: &BTreeSet<String>) -> Outcome {
+    SEAM.store(0, std::sync::atomic::Ordering::Relaxed);
+    let mut o = run_inner(case, known);
+    o.stats.seam_events += SEAM.load(std::sync::atomic::Ordering::Relaxed);
+    o
+}
+
+fn run_inner(case: &Case, _known: &BTreeSet<String>) -> Outcome {
     let mut o = Outcome::default();
     let report = |o: &mut Outcome, v: (String, String, String), desc: &str, img: &[u8], base: Option<&[u8]>| {
         let mut rc = Case::new("C16", "single-image", case.version);
